@@ -63,15 +63,30 @@ func newTemplateChecker(reg template.Registry, tpl template.Template) *templateC
 func (tc *templateChecker) checkTemplate(node ast.Node) {
 	switch node := node.(type) {
 	case *ast.LetValueNode:
+		// the value is evaluated before the variable exists: it is checked first
+		// (in {let $x: $x + 1 /} the $x on the right is an outer $x, or an error)
 		tc.checkLet(node.Name)
+		tc.recurse(node)
 		tc.letVars = append(tc.letVars, node.Name)
+		return
 	case *ast.LetContentNode:
 		tc.checkLet(node.Name)
+		tc.recurse(node)
 		tc.letVars = append(tc.letVars, node.Name)
+		return
 	case *ast.CallNode:
 		tc.checkCall(node)
 	case *ast.ForNode:
+		// the loop variable is bound in the body only: not in the list
+		// expression (evaluated before it exists) and not in {ifempty}
+		tc.checkTemplate(node.List)
 		tc.forVars = append(tc.forVars, node.Var)
+		tc.checkTemplate(node.Body)
+		tc.forVars = tc.forVars[:len(tc.forVars)-1]
+		if node.IfEmpty != nil {
+			tc.checkTemplate(node.IfEmpty)
+		}
+		return
 	case *ast.DataRefNode:
 		tc.visitKey(node.Key)
 	case *ast.HeaderParamNode:
@@ -79,10 +94,6 @@ func (tc *templateChecker) checkTemplate(node ast.Node) {
 	}
 	if parent, ok := node.(ast.ParentNode); ok {
 		tc.recurse(parent)
-	}
-	if _, ok := node.(*ast.ForNode); ok {
-		// the loop variable goes out of scope with its loop
-		tc.forVars = tc.forVars[:len(tc.forVars)-1]
 	}
 }
 
